@@ -20,6 +20,7 @@ from .builtin.tags.comment_tag import CommentNode
 from .builtin.tags.doc_tag import DocNode
 from .context import FutureContext
 from .context import RenderContext
+from .exceptions import ContextDepthError
 from .exceptions import LiquidError
 from .exceptions import LiquidInterrupt
 from .exceptions import LiquidSyntaxError
@@ -110,7 +111,13 @@ class BoundTemplate:
             globals=self.make_globals(dict(*args, **kwargs)),
         )
         buf = self._get_buffer()
-        self.render_with_context(context, buf)
+        try:
+            self.render_with_context(context, buf)
+        except RecursionError as err:
+            # Partial templates nested inside many blocks can exhaust the Python
+            # stack before `context_depth_limit` is reached. Raise, warn or ignore
+            # according to the current mode, like any other render-time error.
+            self.env.error(self._context_depth_error(err))
         return buf.getvalue()
 
     async def render_async(self, *args: Any, **kwargs: Any) -> str:
@@ -120,8 +127,20 @@ class BoundTemplate:
             globals=self.make_globals(dict(*args, **kwargs)),
         )
         buf = self._get_buffer()
-        await self.render_with_context_async(context, buf)
+        try:
+            await self.render_with_context_async(context, buf)
+        except RecursionError as err:
+            self.env.error(self._context_depth_error(err))
         return buf.getvalue()
+
+    @staticmethod
+    def _context_depth_error(err: RecursionError) -> ContextDepthError:
+        exc = ContextDepthError(
+            "maximum context depth reached, possible recursive include or render",
+            token=None,
+        )
+        exc.__cause__ = err
+        return exc
 
     def _get_buffer(self) -> StringIO:
         if self.env.output_stream_limit is None:
